@@ -46,10 +46,11 @@ def make_points(rng):
     # (the statistic must still be the double-precision one of exactly these values)
     r = rng.random()
     if r < 0.2:
-        pts = [(p, None if w is None else Fraction(float(np.float32(rng.uniform(0.1, 1000.0))))) for p, w in pts]
+        # 12 significant bits: exact in float32, and small enough for the exact model to stay fast
+        pts = [(p, None if w is None else Fraction(rng.randint(2048, 4095), 2048) * 2 ** rng.randint(-2, 6)) for p, w in pts]
         DTYPE[0] = 'float32'
     elif r < 0.3:
-        pts = [(p, None if w is None else Fraction(float(np.float16(rng.uniform(0.1, 60.0))))) for p, w in pts]
+        pts = [(p, None if w is None else Fraction(rng.randint(1024, 2047), 1024) * 2 ** rng.randint(-2, 4)) for p, w in pts]
         DTYPE[0] = 'float16'
     elif r < 0.4 and all(w is not None for _, w in pts):
         pts = [(p, Fraction(rng.randint(1, 200))) for p, w in pts]
